@@ -123,8 +123,13 @@ declarations:
 - decl: bool flag(bool b)
 - decl: char * newstr() +owner(caller)
 - decl: void names(char ** out +intent(in), int n)
+- decl: void vfill(std::vector<int> & v +intent(out))
+- decl: int * newarr(int n) +dimension(n)+deref(allocatable)
+- decl: const std::string & label(int k)
 """,
 }
+# the same description under another name (other prefixes): what one library leaves behind must not show in the next
+GENERATED["gen_other"] = GENERATED["gen_wide"].replace("library: wide", "library: other").replace("wide.hpp", "other.hpp")
 
 
 def gen_lib(base, name):
@@ -244,6 +249,8 @@ def run(tier):
         hists += tri[:(60 if thorough else 6)]
         traces = []
         with common.scratch("c07-") as base:
+            gw, go, gh = gen_lib(base, "gen_wide"), gen_lib(base, "gen_other"), gen_lib(base, "gen_headers")
+            hists += [[gw, go], [go, gw], [gh, gw, go], [pool[0], go], [gw, pool[1], go]]
             with cf.ThreadPoolExecutor(common.NCPU) as ex:
                 hres = list(ex.map(lambda a: run_history(base, a[0], a[1]), enumerate(hists)))
             for (libs, (rc, se, outs, regs)) in zip(hists, hres):
